@@ -381,7 +381,7 @@ def panic_sites(body):
             d = t["call"]["def"]
             nm = t["call"]["name"]
             if nm in ("unwrap", "expect", "unwrap_err", "expect_err") and ("result::Result" in d or "option::Option" in d):
-                out.append((t["ln"], d.split("::<")[0], t.get("x")))
+                out.append((t["ln"], ("Result::" if "result::Result" in d else "Option::") + nm, t.get("x")))
             if d.startswith("core::panicking::") or d.startswith("std::rt::begin_panic") or nm in ("panic_fmt", "unreachable_display", "panic_display"):
                 out.append((t["ln"], d, t.get("x")))
             if nm == "index" and "ops::index::Index" in d:
